@@ -123,14 +123,12 @@ func (r *reference) resolveRef(cfg *Config, opts *options) (value, error) {
 		}
 
 		v, err = r.Path.GetValue(cfg, opts)
-		if err == nil {
-			if v == nil {
-				break
-			}
-
+		if err == nil && v != nil {
 			return v, nil
 		}
 
+		// not found here (a missing top-level name is reported as nil value
+		// without an error): continue with the next environment
 		if len(env) == 0 {
 			break
 		}
